@@ -380,7 +380,7 @@ func c19Node(n *snapNode, st *SuiteStats, viol map[string]*Violation, suite stri
 		id := pl.PlayerID
 		gi, allowed := askedActions(t, id)
 		asked := len(allowed) > 0
-		for _, status := range []string{"running", "idle", "suspended"} {
+		for _, status := range []string{"running", "idle", "idle-last", "suspended"} {
 			for _, at := range []int{0, 1, 10} {
 				var v *Viol
 				vrt.Run(vrt.Config{MaxSteps: 100000}, func(env *vrt.Env) {
@@ -388,6 +388,9 @@ func c19Node(n *snapNode, st *SuiteStats, viol map[string]*Violation, suite stri
 					pr := actor.NewPlayerRunner(id)
 					switch status {
 					case "idle":
+						pr.Idle()
+					case "idle-last": // idle with one time-out behind it: the next time-out suspends the runner
+						pr.Idle()
 						pr.Idle()
 					case "suspended":
 						pr.Suspend()
@@ -772,12 +775,15 @@ func init() {
 	})
 	register(&Check{
 		ID: "C19", Level: "model_checking",
-		Rule:        "every distinct snapshot published along the full hand trees of the configurations is shown to a fresh real player runner for every player id x status {running, idle, suspended} x action time {0,1,10}s wired to a recording engine under a virtual clock; no call may arrive before the thinking time unless pass is the only option or the runner is suspended; then exactly one call: pass | ready | check | fold | pay of the posted size, never call/bet/raise/allin; nothing when the player is not asked",
+		Rule:        "every distinct snapshot published along the full hand trees of the configurations is shown to a fresh real player runner for every player id x status {running, idle, idle with one time-out behind it, suspended} x action time {0,1,10}s wired to a recording engine under a virtual clock; no call may arrive before the thinking time unless pass is the only option or the runner is suspended; then exactly one call: pass | ready | check | fold | pay of the posted size, never call/bet/raise/allin; nothing when the player is not asked; plus one long-lived runner taken through every sequence (depth 4 / 5) of 16 operations (three request classes x {time-out, answered by the player, Suspend while pending, superseded by a newer state}, fold by the player, external Idle / Suspend / Resume): at most one automatic action per request, exactly one when nobody answered, conservative, and early only when the reference status machine says suspended",
 		Assumptions: []string{"the clock is virtual; calls are timestamped when they reach the recording engine"},
 		Suites: func(tier string) []*Suite {
 			var ss []*Suite
 			for sh := 0; sh < shards; sh++ {
 				ss = append(ss, actorNodeSuite(fmt.Sprintf("c19/nodes/shard%d", sh), tier, sh, shards, c19Node))
+			}
+			for sh := 0; sh < 8; sh++ {
+				ss = append(ss, c19HistSuite(tier, sh, 8))
 			}
 			return ss
 		},
